@@ -1,8 +1,8 @@
 (* C15 — each physical file is parsed and counted once, however it is reached.
    Only statements, each closed by [exact], with its assumptions printed. *)
-From Coq Require Import Bool Arith ZArith String List.
+From Coq Require Import Bool Arith ZArith String Permutation List.
 From CBI Require Import Lib.Res Model.C01 Spec.C01 Model.C04 Model.C15fs Model.C15 Model.C15i
-     Spec.C04 Spec.C15 Proofs.C15fs Proofs.C15enum Proofs.C15 Proofs.C15i Proofs.C15w Proofs.C15full Proofs.C15spec.
+     Spec.C04 Spec.C15 Proofs.C15fs Proofs.C15enum Proofs.C15 Proofs.C15i Proofs.C15w Proofs.C15full Proofs.C15spec Proofs.C15setmap Proofs.C15rev.
 Import ListNotations.
 Local Open Scope string_scope.
 Local Open Scope list_scope.
@@ -245,6 +245,80 @@ Proof.
 Qed.
 Print Assumptions C15_outside_target_not_member.
 
+(* What the association list built by get_setmap denotes: the number of lines it gives to
+   a platform set is the sum, over the counted files and their nodes, of the lines of the
+   nodes whose platform set is that set - whatever the order of the files. *)
+Theorem C15_setmap_denotes :
+  forall rp shape nplat ms files key,
+    sm_get key (setmap rp shape nplat ms files) = count rp shape nplat ms files key /\
+    (forall files', Permutation files files' ->
+       sm_get key (setmap rp shape nplat ms files) = sm_get key (setmap rp shape nplat ms files')).
+Proof.
+  intros. split; [apply setmap_get|]. intros files' Hp. rewrite !setmap_get. apply count_perm. exact Hp.
+Qed.
+Print Assumptions C15_setmap_denotes.
+
+(* SETMAP EQUAL.  The setmap of the aliased code base (tree with links, aliased contents and
+   configuration; files enumerated by CodeBase.__iter__, links skipped, each looked up by
+   realpath) and the setmap of the specification (Spec/C15.v: every member of the plain list
+   of regular files once, marks of the Spec/C04 reference preprocessor on the canonical
+   configuration) give the same number of lines to every platform set; the marks are equal.
+   The code-base directories are existing directories, pairwise disjoint (overlapping
+   directories are the known finding). *)
+Theorem C15_setmap_equal :
+  forall (root : fnode) (tab_a tab_c : ctable) (cfs : fsys) (is_src : string -> bool)
+         (fuel nplat : nat) (dirs : list path) (c_a c_c : list (nat * entry)) (ms msS : list mark),
+    wf root ->
+    Forall (fun d => is_real root d = true /\ exists kids, node_at root d = Some (Dir kids)) dirs ->
+    ForallOrdPairs disjoint_dirs dirs ->
+    tab_structured tab_a -> tab_structured tab_c -> fs_structured cfs ->
+    tab_rel root tab_a tab_c (alldirs root) -> alias_cfg2 root tab_a (alldirs root) c_a c_c ->
+    tab_names_ok root tab_c -> canon_cfg root c_c ->
+    NoDup (map fst cfs) ->
+    (forall p, is_real root p = true -> fs_get cfs p = getf_i root tab_c p) ->
+    (forall p ls, fs_get cfs p = Some ls -> is_real root p = true) ->
+    Forall (fun p => match node_at root p with Some (File k) => clookup k tab_c <> None | _ => True end) (walk root []) ->
+    find_A (rp_i root) (getf_i root tab_a) fuel (iter root is_src link_fuel dirs) c_a = Ok ms ->
+    analyse_S cfs fuel c_c = Ok msS ->
+    ms = msS /\
+    forall key,
+      sm_get key (setmap (rp_i root) (shape_i root tab_a) nplat ms (counted root is_src link_fuel dirs)) =
+      sm_get key (setmap_S cfs is_src dirs (shape_i root tab_c) nplat msS).
+Proof. exact setmap_equal. Qed.
+Print Assumptions C15_setmap_equal.
+
+(* Several code-base directories, pairwise disjoint (neither a prefix of the other): no path
+   is counted twice and every counted path is its own realpath. *)
+Theorem C15_enumerated_once_disjoint :
+  forall (root : fnode) (is_src : string -> bool) (F : nat) (dirs : list path),
+    wf root -> Forall (fun d => is_real root d = true) dirs -> ForallOrdPairs disjoint_dirs dirs ->
+    NoDup (counted root is_src F dirs) /\
+    (forall p, In p (counted root is_src F dirs) -> forall f, realpath root f p = Ok p).
+Proof.
+  intros root is_src F dirs Hwf Hd Hp. split; [apply counted_NoDup_disjoint; assumption|].
+  intros p Hin. apply (counted_real root is_src F dirs p Hwf Hd Hin).
+Qed.
+Print Assumptions C15_enumerated_once_disjoint.
+
+(* THE OTHER DIRECTION.  Whenever the reference preprocessor accepts the canonical
+   configuration, the analysis of the aliased code base succeeds, with the reference's marks:
+   every failure of the model is a failure of the reference.  (The converse is false by
+   design of CBI: a macro redefined with a different body is diagnosed by the reference,
+   ISO C 6.10.3p2, whereas Platform.define keeps the first definition and goes on.) *)
+Theorem C15_reference_accepts_model_succeeds :
+  forall (root : fnode) (tab_a tab_c : ctable) (cfs : fsys)
+         (fuel : nat) (c_a c_c : list (nat * entry)) (msS : list mark),
+    wf root ->
+    tab_structured tab_a -> tab_structured tab_c -> fs_structured cfs ->
+    tab_rel root tab_a tab_c (alldirs root) -> alias_cfg2 root tab_a (alldirs root) c_a c_c ->
+    tab_names_ok root tab_c -> canon_cfg root c_c ->
+    (forall p, is_real root p = true -> fs_get cfs p = getf_i root tab_c p) ->
+    (forall p ls, fs_get cfs p = Some ls -> is_real root p = true) ->
+    analyse_S cfs fuel c_c = Ok msS ->
+    analyse (rp_i root) (getf_i root tab_a) fuel c_a = Ok msS.
+Proof. exact reference_accepts_model_succeeds. Qed.
+Print Assumptions C15_reference_accepts_model_succeeds.
+
 (* ---------- non-vacuity ---------- *)
 (* cb/{src/{a.c, la.c -> a.c}, inc/h.h, li -> inc, lx.c -> /ext/x.c}, ext/x.c ; a.c includes <h.h> twice, h.h has #pragma once *)
 Definition C15_ex_root : fnode :=
@@ -412,3 +486,42 @@ Example C15_reference_nonvacuous :
   | Err _ => False
   end.
 Proof. vm_compute. split; reflexivity. Qed.
+
+(* C15_setmap_equal applies to the instance: all hypotheses hold with cfs := fsys_of, and
+   both setmaps give 9 lines to {platform 0}, 1 line to the empty set *)
+Example C15_setmap_equal_nonvacuous :
+  let cfs := fsys_of C15_ex2_root C15_ex2_tab_c in
+  match find_A (rp_i C15_ex2_root) (getf_i C15_ex2_root C15_ex2_tab_a) 5
+               (iter C15_ex2_root C15_ex_src link_fuel [["cb"]]) C15_ex2_alias_cfg,
+        analyse_S cfs 5 C15_ex2_canon_cfg with
+  | Ok ms, Ok msS =>
+      ms = msS /\
+      (forall key, sm_get key (setmap (rp_i C15_ex2_root) (shape_i C15_ex2_root C15_ex2_tab_a) 1 ms
+                                 (counted C15_ex2_root C15_ex_src link_fuel [["cb"]])) =
+                   sm_get key (setmap_S cfs C15_ex_src [["cb"]] (shape_i C15_ex2_root C15_ex2_tab_c) 1 msS)) /\
+      sm_get [0] (setmap_S cfs C15_ex_src [["cb"]] (shape_i C15_ex2_root C15_ex2_tab_c) 1 msS) = 9 /\
+      sm_get [] (setmap_S cfs C15_ex_src [["cb"]] (shape_i C15_ex2_root C15_ex2_tab_c) 1 msS) = 1
+  | _, _ => False
+  end.
+Proof.
+  intros cfs.
+  destruct (find_A (rp_i C15_ex2_root) (getf_i C15_ex2_root C15_ex2_tab_a) 5
+                   (iter C15_ex2_root C15_ex_src link_fuel [["cb"]]) C15_ex2_alias_cfg) as [ms|e] eqn:E;
+    [|vm_compute in E; discriminate].
+  destruct (analyse_S cfs 5 C15_ex2_canon_cfg) as [msS|e] eqn:ES; [|vm_compute in ES; discriminate].
+  destruct (C15_file_list_exists C15_ex2_root C15_ex2_tab_c C15_ex2_wf eq_refl) as (F1 & F2 & F3).
+  destruct (C15_setmap_equal C15_ex2_root C15_ex2_tab_a C15_ex2_tab_c cfs C15_ex_src 5 1 [["cb"]]
+              C15_ex2_alias_cfg C15_ex2_canon_cfg ms msS C15_ex2_wf) as [H1 H2]; auto.
+  - constructor; [|constructor]. split; [vm_compute; reflexivity|]. eexists. cbn. reflexivity.
+  - constructor; constructor.
+  - exact C15_ex2_structured_a.
+  - exact C15_ex2_structured_c.
+  - apply F3. exact C15_ex2_structured_c.
+  - exact C15_ex2_tab_rel.
+  - exact C15_ex2_alias_cfg2.
+  - exact C15_ex2_names_ok.
+  - exact C15_ex2_canon.
+  - vm_compute. repeat (constructor; [cbn; intuition discriminate|]). constructor.
+  - vm_compute. repeat (constructor; [try exact I; discriminate|]). constructor.
+  - split; [exact H1|]. split; [exact H2|]. vm_compute in ES. inversion ES; subst. vm_compute. split; reflexivity.
+Qed.
